@@ -167,7 +167,8 @@ def run_conic(c):
 def round_case(draw, tier="quick"):
     what = draw(st.sampled_from(["circle", "ellipse", "sphere2", "sphere3"]))
     return {"what": what, "c": [draw(C.ints(9)) for _ in range(3)], "r": draw(st.sampled_from([1, 2, 3, 5, 7, 0.5, 1.5])), "r2": draw(st.sampled_from([1, 2, 4, 6, 0.5, 2.5])),
-            "phi": [draw(st.integers(0, 23)) for _ in range(4)], "s": draw(C.scale())}
+            "phi": [draw(st.integers(0, 23)) for _ in range(4)], "s": draw(C.scale()),
+            "moved": draw(st.one_of(st.none(), st.tuples(st.sampled_from([2.0, 0.5, 1.0]), st.integers(-4, 4), st.integers(-4, 4), st.integers(-4, 4)).map(list)))}
 
 
 def run_round(c):
@@ -180,6 +181,14 @@ def run_round(c):
         obj, f = call(what, (lambda: Circle(P(ctr, s), r)) if what == "circle" else (lambda: Ellipse(P(ctr, s), h, v)))
         if f:
             return [f]
+        if c.get("moved"):
+            # the round object is obtained from the constructed one by a similarity of the library (scaling by k, then a
+            # translation): it is the circle / ellipse with centre k*c + m and radii k*r, and must read back as such
+            k, m = float(c["moved"][0]), np.array(c["moved"][1:3], float)
+            obj, f = call(what + ":moved", lambda: G.translation(*m) * (G.scaling(k, k) * obj))
+            if f:
+                return [f]
+            ctr, r, h, v = k * ctr + m, k * r, k * h, k * v
         for k in c["phi"]:
             ph = k * math.pi / 12
             p = ctr + np.array([h * math.cos(ph), v * math.sin(ph)])
@@ -229,6 +238,12 @@ def run_round(c):
     obj, f = call(what, lambda: Sphere(P(ctr, s), r))
     if f:
         return [f]
+    if c.get("moved"):
+        k, m = float(c["moved"][0]), np.array(c["moved"][1:1 + d], float)
+        obj, f = call(what + ":moved", lambda: G.translation(*m) * (G.scaling(*([k] * d)) * obj))
+        if f:
+            return [f]
+        ctr, r = k * ctr + m, k * r
     for i, k in enumerate(c["phi"]):
         ph = k * math.pi / 12
         th = (c["phi"][(i + 1) % 4] + 1) * math.pi / 25
@@ -333,8 +348,8 @@ def cone_labels(c):
 LAWS = [
     Law("conic_constructors", lambda tier: conic_case(tier), run_conic, lambda c: True, lambda c: [c["what"]], {"quick": 1500, "thorough": 30000},
         "from_points / from_crossratio / from_tangent / from_foci", shard=300),
-    Law("round", lambda tier: round_case(tier), run_round, lambda c: any(c["c"]), lambda c: [c["what"]], {"quick": 1000, "thorough": 20000},
-        "Circle / Ellipse / Sphere: locus membership, center, radius, foci, area, volume", shard=300),
+    Law("round", lambda tier: round_case(tier), run_round, lambda c: any(c["c"]), lambda c: [c["what"]] + (["moved-by-a-similarity"] if c.get("moved") else []), {"quick": 1000, "thorough": 20000},
+        "Circle / Ellipse / Sphere: locus membership, center, radius, foci, area, volume; also after a similarity (scaling, translation) of the library", shard=300, mandatory=("moved-by-a-similarity",)),
     Law("cone_cylinder", lambda tier: cone_case(tier), run_cone, cone_nontrivial, cone_labels, {"quick": 1200, "thorough": 25000},
         "Cone / Cylinder contain exactly the parametrised Cartesian locus, axis directions in all octants", shard=300, mandatory=("generic-axis",)),
 ]
